@@ -390,8 +390,48 @@ func genC18(seed uint64, tier string) *Scenario {
 		// whose read side has not noticed yet makes attempts spin
 		s.Net.LatencyNs, s.Net.StallPct = 0, 0
 	}
+	rtGenSplit(r, s, &cfg, class < 60)
 	s.Ext = map[string]rawJSON{"retry": ExtJSON(cfg)}
 	return s
+}
+
+// rtGenSplit puts some RPCs into split mode (see retry_ext.go): the script's
+// goroutine sends while a second goroutine receives on the same stream, so a
+// failed attempt is noticed and replaced by the receiver while the sender is
+// inside SendMsg or CloseSend. Header() is a receiving operation: a "header"
+// step of the script moves to the receiver. In half of those runs the stats
+// handler takes simulated time in one of its callbacks (napOK; not in the
+// classes whose connection faults and server stops can make attempts spin at
+// one simulated instant: a sleeper cannot wake while simulated time stands
+// still, and the run then lasts until the runtime's spin guard ends it).
+func rtGenSplit(r *core.Rand, s *Scenario, cfg *rtCfg, napOK bool) {
+	pct := core.Pick(r, 0, 0, 30, 60, 100)
+	if pct == 0 {
+		return
+	}
+	for i := range s.RPCs {
+		if r.Intn(100) >= pct {
+			continue
+		}
+		sl := rtSplit{ID: s.RPCs[i].ID, Header: r.Chance(1, 6)}
+		var ops []Op
+		for _, op := range s.RPCs[i].Client {
+			if op.Op == "header" {
+				sl.Header = true
+				continue
+			}
+			ops = append(ops, op)
+		}
+		s.RPCs[i].Client = ops
+		cfg.Split = append(cfg.Split, sl)
+		if costCap == 0 && r.Chance(1, 3) && rtGenPressure(r, &s.RPCs[i]) {
+			cfg.BufBytes = 0 // the default limit: the messages below stay replayable
+		}
+	}
+	if len(cfg.Split) > 0 && r.Chance(1, 2) && napOK {
+		cfg.NapNs = int64(core.Pick(r, 1000, 100000, 1000000, 5000000, 30000000))
+		cfg.NapOn = core.Pick(r, "out_payload", "out_payload", "out_payload", "in_payload", "in_header")
+	}
 }
 
 // rtYieldFloor: an attempt on a transport that is already closing is retried
@@ -611,6 +651,11 @@ func rtWarm(i int, seed uint64) *Scenario {
 		p := add(4*ms, unary, fail(14, nil, nil), fail(14, nil, []KV{{K: rtPbKey, V: "2000"}}), ok)
 		p.DeadlineNs = 50 * ms
 		add(5*ms, []Op{{Op: "send", N: 10}, {Op: "header"}, {Op: "close_send"}, {Op: "recv_all"}}, fail(14, nil, nil), ok)
+		// split mode (sender + receiver goroutine), a napping stats handler
+		add(6*ms, []Op{{Op: "send", N: 10}, {Op: "send", N: 20}, {Op: "close_send"}, {Op: "recv_all"}}, fail(14, nil, nil), fail(14, []Op{{Op: "recv"}}, nil), ok)
+		add(6*ms, []Op{{Op: "send", N: 10}, {Op: "recv"}, {Op: "close_send"}, {Op: "recv_all"}}, fail(10, nil, nil), []Op{{Op: "recv"}, {Op: "send", N: 5}, {Op: "recv_all"}})
+		cfg.Split = []rtSplit{{ID: 12}, {ID: 13, Header: true}}
+		cfg.NapNs, cfg.NapOn = 1000, "out_payload"
 	case 1: // connection loss, transparent retries, dial failures, backoff
 		s.Faults = []simnet.Fault{
 			{Kind: "cut_after", Conn: 0, Dir: "c2s", Bytes: 400},
@@ -645,4 +690,58 @@ func rtWarm(i int, seed uint64) *Scenario {
 	}
 	s.Ext = map[string]rawJSON{"retry": ExtJSON(cfg)}
 	return s
+}
+
+// rtGenPressure rewrites a send-then-receive script so that the sender gets
+// stuck inside SendMsg: three or more messages that together exceed the
+// stream's flow-control window and the transport's write quota, against
+// failing handlers that sleep first and read little. The attempt then fails
+// while SendMsg is blocked in the transport, and sender and receiver learn of
+// it at the same simulated instant.
+func rtGenPressure(r *core.Rand, rpc *RPC) bool {
+	lastSend := -1
+	for i, op := range rpc.Client {
+		switch op.Op {
+		case "send":
+			lastSend = i
+		case "recv":
+			return false // ping-pong: the sender waits for answers
+		}
+	}
+	if lastSend < 0 {
+		return false
+	}
+	big := func() int { return core.Pick(r, 20000, 33000, 50000, 66000, 100000) }
+	n := 0
+	for i := range rpc.Client {
+		if rpc.Client[i].Op == "send" {
+			rpc.Client[i].N = big()
+			n++
+		}
+	}
+	var extra []Op
+	for ; n < 3; n++ {
+		extra = append(extra, Op{Op: "send", N: big()})
+	}
+	ops := append([]Op{}, rpc.Client[:lastSend+1]...)
+	ops = append(ops, extra...)
+	rpc.Client = append(ops, rpc.Client[lastSend+1:]...)
+	for k := 0; k+1 < len(rpc.Server); k++ {
+		sv := rpc.Server[k]
+		if r.Chance(1, 2) {
+			// read nothing: the stream's window fills up
+			var kept []Op
+			for _, op := range sv {
+				if op.Op != "recv" && op.Op != "recv_all" {
+					kept = append(kept, op)
+				}
+			}
+			sv = kept
+		}
+		if len(sv) == 0 || sv[0].Op != "sleep" {
+			sv = append([]Op{{Op: "sleep", Ns: int64(core.Pick(r, 1000000, 5000000, 30000000))}}, sv...)
+		}
+		rpc.Server[k] = sv
+	}
+	return true
 }
